@@ -531,21 +531,108 @@ def fam_rec(arg):
     return acc.result()
 
 
+# ---------------------------------------------------------------- identifiers that start with a keyword; empty loop bodies
+
+KEYWORDS = ('return', 'if', 'elif', 'else', 'endif', 'while', 'endwhile', 'for', 'endfor', 'function', 'endfunction',
+            'break', 'continue', 'include', 'jump', 'jumpif', 'async', 'in')
+KW_USES = ('call-statement', 'assignment', 'expression', 'condition', 'loop')
+
+
+def build_kw(case):
+    kw = KEYWORDS[case['k']]
+    fname = kw + 'Items'          # e.g. returnItems, ifItems, forItems
+    vname = kw + 'Count'
+    use = case['use']
+    defs = [('func', fname, ['pa'], False, [_log(('bin', '+', ('str', fname + ':'), _v('pa'))), ('return', ('bin', '+', _v('pa'), _n(1)))])]
+    if use == 'call-statement':
+        main = [('func', 'outer', [], False, [('expr', ('call', fname, [_n(1)])), _log(('str', 'after-call')), ('return', ('str', 'outer-end'))]),
+                ('assign', 'rr', ('call', 'outer', [])), ('expr', ('call', fname, [_n(2)])), _log(('str', 'end'))]
+    elif use == 'assignment':
+        main = [('assign', vname, _n(5)), ('assign', vname, ('bin', '+', _v(vname), _n(1))), _log(('bin', '+', ('str', 'v='), _v(vname)))]
+    elif use == 'expression':
+        main = [('assign', vname, _n(3)), ('assign', 'rr', ('bin', '+', ('call', fname, [_v(vname)]), _v(vname))), _log(('bin', '+', ('str', 'rr='), _v('rr')))]
+    elif use == 'condition':
+        main = [('assign', vname, _n(1)), ('if', [(_v(vname), [_log(('str', 'T'))])], [_log(('str', 'F'))]),
+                ('if', [(('call', fname, [_n(0)]), [_log(('str', 'T2'))])], None)]
+    else:
+        main = [('assign', vname, ('call', 'arrayNew', [_n(1), _n(2)])), ('for', 'item', None, _v(vname), [_log(('bin', '+', ('str', 'i'), _v('item')))]),
+                ('assign', 'nn', _n(0)), ('while', ('bin', '<', _v('nn'), ('call', fname, [_n(0)])), [('assign', 'nn', ('bin', '+', _v('nn'), _n(1))), _log(('str', 'w'))])]
+    return defs + main + [('return', _v('rr'))]
+
+
+def check_kw(case, acc):
+    return check_program(build_kw(case), case, acc, 1)
+
+
+def fam_kw(arg):
+    acc = Acc('keyword_names')
+    for case in arg:
+        acc.cases += 1
+        check_kw(case, acc)
+    if arg:
+        acc.sample(dict(arg[0], source=ast.source(build_kw(arg[0]))))
+    return acc.result()
+
+
+EMPTY_SHAPES = ('while-empty', 'while-comment', 'for-empty', 'for-comment', 'if-empty', 'nested-empty', 'while-empty-in-function', 'empty-then-loop')
+
+
+def build_empty(case):
+    shape = EMPTY_SHAPES[case['s']]
+    cc = ('call', 'cc', [])
+    pk = ('call', 'pk', [])
+    cm = [('comment', 'nothing')]
+    if shape == 'while-empty':
+        body = [('while', cc, [])]
+    elif shape == 'while-comment':
+        body = [('while', cc, cm)]
+    elif shape == 'for-empty':
+        body = [('for', 'vv', 'ii', pk, [])]
+    elif shape == 'for-comment':
+        body = [('for', 'vv', None, pk, cm)]
+    elif shape == 'if-empty':
+        body = [('if', [(cc, [])], None), ('if', [(cc, []), (cc, [])], [])]
+    elif shape == 'nested-empty':
+        body = [('while', cc, [('for', 'vv', None, pk, []), ('if', [(cc, [])], None)])]
+    elif shape == 'while-empty-in-function':
+        body = [('func', 'ff', [], False, [('while', cc, []), ('for', 'vv', None, pk, cm), ('return', ('str', 'done'))]), ('assign', 'rr', ('call', 'ff', []))]
+    else:
+        body = [('while', cc, []), ('while', cc, [_log(('str', 'b'))]), ('for', 'vv', None, pk, []), ('for', 'ww', None, pk, [_log(('bin', '+', ('str', 'w'), _v('ww')))])]
+    return [_log(('str', 'start'))] + body + [_log(('str', 'end'))]
+
+
+def check_empty(case, acc):
+    return check_program(build_empty(case), case, acc, case['bound'])
+
+
+def fam_empty(arg):
+    acc = Acc('empty_bodies')
+    for case in arg:
+        acc.cases += 1
+        check_empty(case, acc)
+        acc.sample(dict(case, source=ast.source(build_empty(case))))
+    return acc.result()
+
+
 def families(tier):
     load_impl()
     from ..engine.shard import split  # pylint: disable=import-outside-toplevel
     rc = rec_cases(tier)
+    kwc = [{'k': k, 'use': u} for k in range(len(KEYWORDS)) for u in KW_USES]
+    emc = [{'s': i, 'bound': 3 if tier == 'quick' else 4} for i in range(len(EMPTY_SHAPES))]
     be = [{'spec': sp, 'bound': 2 if tier == 'quick' else 3} for sp in chains.branch_end_specs()]
     sc = sibling_cases(tier)
     fc = func_cases(tier)
     return [chain_family(tier), small_family(tier), truth_family(tier),
             Family('branch_end', fam_branch_end, split(be, 48), 'an if chain inside a loop where every branch independently ends in nothing / break / continue / return; 3 loop kinds x 4 chain shapes x endings x 2 scopes x 3 surroundings', expected=len(be)),
+            Family('keyword_names', fam_kw, split(kwc, 9), 'function and variable names that START with a keyword (returnItems, ifCount, forItems, ...) used as call statement, assignment target, in expressions, conditions and loop headers', expected=len(kwc)),
+            Family('empty_bodies', fam_empty, [[c] for c in emc], 'loops and ifs with empty and comment-only bodies (a back edge directly after the loop label)', expected=len(emc)),
             Family('recursion', fam_rec, split(rc, 16), 'recursive functions that read their own locals / loop variables after the inner call returns (factorial, fibonacci, tree walk over a tape-chosen array, mutual recursion, loop + recursion) x argument values x call sites (top level, inside a loop, with surplus and missing arguments)', expected=len(rc)),
             Family('siblings', fam_siblings, split(sc, 64), 'ordered pairs (thorough: all pairs and depth-1 triples) of depth <= 2 chain bodies side by side in one block, at global scope, inside a function, inside a loop; deviation bound 2', expected=len(sc)),
             Family('funcs', fam_funcs, split(fc, 48), 'three functions: 5 body kinds each x call graph {chain, diamond, bounded recursion} x definition site {top level, inside an if block, inside a loop body}', expected=len(fc))]
 
 
-_CHECKS = {'recursion': check_rec, 'chain': check_chain, 'small': check_small, 'truth': check_truth, 'siblings': check_siblings, 'funcs': check_funcs, 'branch_end': check_branch_end}
+_CHECKS = {'keyword_names': check_kw, 'empty_bodies': check_empty, 'recursion': check_rec, 'chain': check_chain, 'small': check_small, 'truth': check_truth, 'siblings': check_siblings, 'funcs': check_funcs, 'branch_end': check_branch_end}
 
 
 def replay(family, case):
